@@ -1229,6 +1229,8 @@ func (e *emitter) replay(raw json.RawMessage) {
 			ks[i] = crypto.NewEd25519PrivKey(b)
 		}
 		e.oto(d.Name, ks, d.Type)
+	case "conc":
+		e.replayConc(raw)
 	}
 }
 
@@ -1310,6 +1312,12 @@ func main() {
 	for i := 0; i < otos; i++ {
 		e.genOto(ro)
 	}
+	// overlapping derivations (conc.go)
+	scale := o.Budget
+	if o.Tier == "thorough" {
+		scale *= 6
+	}
+	e.genConc(root.Fork(1<<41), scale)
 	w.Finish("every case counts once per distinct (validator, view, observed verdict): the view is the decoded payload with "+
 		"byte strings replaced by per-case numbers, i.e. its flag and equality structure; repeated structures are not counted again",
 		e.samples, nil)
